@@ -16,6 +16,7 @@ import (
 	"github.com/bronlabs/bron-crypto/pkg/mpc"
 	"github.com/bronlabs/bron-crypto/pkg/mpc/session"
 	"github.com/bronlabs/bron-crypto/pkg/mpc/sharing/accessstructures"
+	"github.com/bronlabs/bron-crypto/pkg/mpc/signatures/ecdsa/cggmp21"
 	"github.com/bronlabs/bron-crypto/pkg/mpc/signatures/ecdsa/dkls23"
 	dklskeygen "github.com/bronlabs/bron-crypto/pkg/mpc/signatures/ecdsa/dkls23/keygen"
 	"github.com/bronlabs/bron-crypto/pkg/mpc/signatures/ecdsa/dkls23/signing_bbot"
@@ -58,6 +59,10 @@ type ECDSASigner interface {
 	// Lindell17Deal deals Lindell17 shards (Paillier keys of keyLen bits sampled from prng).
 	Lindell17Deal(ac accessstructures.Monotone, keyLen uint, prng io.Reader) (map[ID]any, []byte, error)
 	Lindell17Runner(primary bool, ctx *session.Context, shard any, peer ID, comp compiler.Name, message []byte, prng io.Reader) (network.Runner[any], error)
+	// CGGMP21 (shards carry Paillier / ring-Pedersen material built from prime fixtures).
+	CGGMP21Shards(baseShards map[ID]any) (map[ID]any, error)
+	CGGMP21Runner(ctx *session.Context, shard any, message []byte, prng io.Reader) (network.Runner[any], error)
+	CGGMP21Finish(outs map[ID]any) (*ECDSASig, error)
 	// SigOf converts a library *ecdsa.Signature output to the erased form.
 	SigOf(out any) (*ECDSASig, error)
 	// VerifyLib runs the library's default single-party verifier with the public key of the shard.
@@ -105,6 +110,8 @@ func (s *ecdsaSuite[P, B, S]) base(v any) (*mpc.BaseShard[P, S], error) {
 	case *dkls23.Shard[P, B, S]:
 		return &x.BaseShard, nil
 	case *lindell17.Shard[P, B, S]:
+		return &x.BaseShard, nil
+	case *cggmp21.Shard[P, B, S]:
 		return &x.BaseShard, nil
 	}
 	return nil, fmt.Errorf("%s: unsupported shard type %T", s.Name(), v)
